@@ -1109,7 +1109,7 @@ theorem tree_mergeTo_spec (ho : Order lt) (cfg : Cfg) (hmax : 0 < cfg.maxCap) (s
     · rw [if_pos hd0]
       have : dst.toList = [] := by
         have := hwd.count; rw [hd0] at this; exact List.eq_nil_of_length_eq_zero this.symm
-      exact ⟨by simp [Spec.merge, this, ha], hws, hss, hwd⟩
+      exact ⟨by simp [Spec.merge, this, ha], hws, hss, Tree.wf_empty cfg⟩
     · rw [if_neg hd0]
       have hdne : dst.toList ≠ [] := by
         intro h; apply hd0; rw [hwd.count, h]; rfl
